@@ -25,6 +25,8 @@ pub mod stats_collector;
 #[cfg(feature = "t38")]
 pub mod t38;
 pub mod transports;
+#[cfg(rustrtc_verif)]
+pub mod verif_hooks;
 
 pub use config::{
     ApplicationCapability, AudioCapability, BundlePolicy, CertificateConfig, IceCredentialType,
@@ -72,6 +74,8 @@ pub(crate) fn spawn_rtc<F>(
 where
     F: Future<Output = ()> + Send + 'static,
 {
+    #[cfg(rustrtc_verif)]
+    let fut = crate::verif_hooks::wrap_task(fut);
     let fut = fut.instrument(span);
     match handle {
         Some(h) => h.spawn(fut),
